@@ -35,6 +35,8 @@ type World struct {
 	heapSort map[string]Sort // heap key -> SMT sort of the heap variable
 	heapGoT  map[string]types.Type
 	xsorts   map[Sort]bool
+	boxSorts map[Sort]bool
+	regContracts map[*ssa.Function]*FuncContract
 	tags     map[string]int
 	strIDs   map[string]int
 	strList  []string
@@ -56,7 +58,7 @@ func shortPath(p string) string {
 func LoadWorld(repo string) (*World, error) {
 	w := &World{repo: repo, pkgs: map[string]*packages.Package{}, spkgs: map[string]*ssa.Package{},
 		tpkgs: map[string]*types.Package{}, byName: map[string][]*types.Package{},
-		heapSort: map[string]Sort{}, heapGoT: map[string]types.Type{}, xsorts: map[Sort]bool{},
+		heapSort: map[string]Sort{}, boxSorts: map[Sort]bool{}, heapGoT: map[string]types.Type{}, xsorts: map[Sort]bool{},
 		tags: map[string]int{}, strIDs: map[string]int{}, specSigs: map[string]*specSig{}}
 	env := append(os.Environ(), "GOFLAGS=-mod=mod", "GOPROXY=off", "GOSUMDB=off", "GOTOOLCHAIN=local", "CGO_ENABLED=0")
 	cfg := &packages.Config{Mode: packages.LoadAllSyntax, Dir: repo, BuildFlags: []string{"-tags=verif"}, Env: env}
@@ -550,6 +552,20 @@ func (w *World) contractFor(fn *ssa.Function) *FuncContract {
 	if fc, ok := w.cons.Funcs[extKey(fn)]; ok {
 		return fc
 	}
+	if w.regContracts == nil {
+		w.regContracts = map[*ssa.Function]*FuncContract{}
+		for k, fc := range w.cons.Funcs {
+			i := strings.Index(k, "::")
+			if i > 0 && reRegKey.MatchString(k[i+2:]) {
+				if f := w.resolveRegistryKey(k[:i], k[i+2:]); f != nil {
+					w.regContracts[f] = fc
+				}
+			}
+		}
+	}
+	if fc, ok := w.regContracts[fn]; ok {
+		return fc
+	}
 	return nil
 }
 
@@ -570,6 +586,9 @@ func (w *World) findFunc(key string) *ssa.Function {
 	sp := w.spkgs[pkgPath]
 	if sp == nil {
 		return nil
+	}
+	if fn := w.resolveRegistryKey(pkgPath, rel); fn != nil {
+		return fn
 	}
 	var found *ssa.Function
 	var visit func(fn *ssa.Function)
@@ -642,6 +661,15 @@ func (w *World) prelude() string {
 	sort.Strings(xs)
 	for _, s := range xs {
 		fmt.Fprintf(&sb, "(declare-sort %s 0)\n(declare-const zero!%s %s)\n", s, s, s)
+	}
+	sb.WriteString("(declare-fun unboxstr (Int) Str)\n")
+	bs := make([]string, 0, len(w.boxSorts))
+	for s := range w.boxSorts {
+		bs = append(bs, string(s))
+	}
+	sort.Strings(bs)
+	for _, s := range bs {
+		fmt.Fprintf(&sb, "(declare-fun box!%s (%s) Int)\n(declare-fun unbox!%s (Int) %s)\n", smtName(s), s, smtName(s), s)
 	}
 	return sb.String()
 }
